@@ -14,7 +14,7 @@ import (
 // ever cleared inside the inner loop, the first loop that clears it decides for all the loops after
 // it (a polygon with several holes is judged by its first hole).
 //
-// Slots (by shape, root package and package geometry): a boolean local that is assigned a constant,
+// Slots (by shape, root package, package geometry and package ingest): a boolean local that is assigned a constant,
 // or accumulated (v = v && e, v = v || e), inside an inner loop and read in the body of the enclosing outer loop after that inner loop.
 // Obligation: the flag is declared, or assigned its starting constant, inside the outer loop body
 // before the inner loop — on every iteration it starts afresh.
@@ -40,9 +40,9 @@ func init() {
 	register(&Rule{
 		Name:    "FLAG-RESET",
 		IR:      "ast",
-		Props:   []string{"C05", "C39"},
+		Props:   []string{"C05", "C39", "C15"},
 		Floor:   1,
-		FloorBy: map[string]int{"C05": 0, "C39": 1},
+		FloorBy: map[string]int{"C05": 0, "C39": 1, "C15": 1},
 		// The geometric predicates of spatial.go carry C05 (none keeps such a flag since fix 0ae73b2
 		// replaced the per-ring verdict of CapIntersectsPolygon by Polygon.ContainsPoint); the tag list's
 		// RemoveTags carries C39; package geometry is informational.
@@ -52,6 +52,9 @@ func init() {
 				o.Props = []string{"C05"}
 			case strings.HasPrefix(o.Pos, "world.go:"):
 				o.Props = []string{"C39"}
+			case strings.HasPrefix(o.Pos, "ingest/features.go:"):
+				// the per-reference verdict of FeatureReferencesByID.AddFeature
+				o.Props = []string{"C15"}
 			default:
 				o.Props = []string{"C05"}
 				if o.Status == Violation {
@@ -83,7 +86,7 @@ func init() {
 
 func runFlagReset(c *Ctx) []Obligation {
 	var out []Obligation
-	for _, rel := range []string{"", "geometry"} {
+	for _, rel := range []string{"", "geometry", "ingest"} {
 		p := c.Pkg(rel)
 		if p == nil {
 			continue
